@@ -165,6 +165,9 @@ class OracleDRO:
     def norm(self, e, p):
         return OAtom({1: 'norm1', 2: 'norm2', 'inf': 'norminf'}[p], e)
 
+    def square(self, e):
+        return OAtom('square', e)
+
     def maxof(self, *pieces):
         return OAtom('max', [parr(p) for p in pieces])
 
@@ -328,6 +331,9 @@ class RealDRO:
 
     def norm(self, e, p):
         return self.rso.norm(e, {1: 1, 2: 2, 'inf': 'inf'}[p])
+
+    def square(self, e):
+        return self.rso.square(e)
 
     def maxof(self, *pieces):
         return self.rso.maxof(*pieces)
